@@ -97,7 +97,10 @@ def generate(seed, tier="quick"):
     # this history names its flags explicitly, so all three executors still have to agree
     erng = sub(seed, "envflags")
     env_flags = erng.choice(["create", "fix", "trim", "create,fix", "update", "report", "create,fix,trim,update", "disable"]) if erng.random() < 0.3 else None
-    return {"program": prog, "steps": steps, "env_flags": env_flags}
+    # the project configures black: every executor formats what it writes with these options, whichever project was formatted before in the same process
+    brng = sub(seed, "black-options")
+    black = {"line-length": brng.choice([30, 40, 60, 120])} if brng.random() < 0.3 else None
+    return {"program": prog, "steps": steps, "env_flags": env_flags, "black": black}
 
 
 def has_norepr(prog):
@@ -115,12 +118,24 @@ def execute(case, ctx):
 
     files, orders = P.render(prog, drivers.simlib_text())
     cur = {k: v for k, v in files.items()}
+    if case.get("black"):
+        import black as _black
+
+        cur["pyproject.toml"] = sim.pyproject_for(black=case["black"])
+        ctx.count("probe_project_with_black_options")
+        # (the files are clean under the project's options, so that every rewrite formats the whole file)
+        for k in list(cur):
+            if k.startswith("test_"):
+                try:
+                    cur[k] = _black.format_str(cur[k], mode=_black.FileMode(line_length=case["black"]["line-length"]))
+                except Exception:
+                    pass
     for si, cats in enumerate(case["steps"]):
         flags = ",".join(["report"] + sorted(cats))
         tests_only = {k: v for k, v in cur.items() if k.startswith("test_")}
         # ---- executor 1: run_inline
         env = {"INLINE_SNAPSHOT_DEFAULT_FLAGS": case["env_flags"]} if case.get("env_flags") else None
-        n1, r1 = sim.run_session(ctx, "inline", cur, {"flags": flags, "env": env})
+        n1, r1 = sim.run_session(ctx, "inline", cur, {"flags": flags, "env": env, "with_pyproject": True})
         # ---- executor 2: the real plugin, forked
         n2, r2 = sim.run_session(ctx, "plugin", cur, {"flags": flags, "env": env})
         # ---- executor 3: run_pytest
@@ -168,3 +183,5 @@ def shrink(case):
         yield dict(case, program=p)
     if case.get("env_flags"):
         yield dict(case, env_flags=None)
+    if case.get("black"):
+        yield dict(case, black=None)
